@@ -1,6 +1,9 @@
 (* C04 - lexicographic inference = comparison of least falsification-count vectors. *)
 From InfOCF Require Import Core Tol Lex Form Model Spec ThmOps ThmTop.
 From InfOCFProps Require Import Ex.
+From InfOCF Require Import PyLib TieSolver TieMax TieLayer TieLex TieLexTop.
+From InfOCFGen Require Import SrcLex.
+From Coq Require Import ZArith.
 
 Theorem C04_lex_inf_is_lexicographic_definition : forall n D q P, D <> [] -> part_strict n D = Some P ->
   infer n SysLex false D q = Ans (lex_spec (worlds n) P q).
@@ -18,6 +21,30 @@ Definition X := FAnd (FAnd (v 0) (v 2)) (FAnd (FNot (v 3)) (v 4)).
 Definition Y := FAnd (FNot (v 0)) (FNot (v 2)).
 Definition Z := FAnd (FAnd (v 0) (v 2)) (FAnd (v 3) (FNot (v 4))).
 Definition q_tie := mk 1 (FOr X Y) (FAnd (v 1) (FOr (FOr X Y) Z)).
+(* SOURCE TIE.  py_LexInf_inference (with py_LexInf_rec_inference) is GENERATED on every run from /repo's lex_inf.py
+   (coq/gen/SrcLex.v).  CNFs and the MaxSAT enumeration enter by their contracts (PyLib.scnf, PyLib.mcs - what C15
+   establishes).  For every base with distinct keys, every layering of it, every query and either mode the generated
+   function returns the model's answer (strict mode: behind the quick checks the source repeats) ... *)
+Theorem C04_source_code_is_model : forall n q D, NoDup (map kz D) ->
+  forall (lay:cond -> nat) m, (forall c, In c D -> lay c < m) -> 0 < m ->
+  forall nf fd : dict BinNums.Z scnf, dict_keys nf = map kz D ->
+  (forall c, In c D -> exists cn, zdict_find nf (kz c) = Some cn /\ forall w, scnf_holds cn w = negb (fal c w)) ->
+  (forall c, In c D -> exists cn, zdict_find fd (kz c) = Some cn /\ forall w, scnf_holds cn w = fal c w) ->
+  forall bb, (forall c, In c D -> zdict_find (bb_conditionals bb) (kz c) = Some c) ->
+  forall weakly vq0 fq0 u1 u2,
+  py_LexInf_inference n (S m) (Pk D lay m) nf fd vq0 fq0 bb u1 q weakly u2
+  = Return (if weakly then lex_ext n (acP (Pc D lay m)) q else trivial n q || lex_strict n (acP (Pc D lay m)) q).
+Proof. exact tie_lex_inference. Qed.
+Print Assumptions C04_source_code_is_model.
+(* ... and, on the partition of a strongly consistent base (which is such a layering) and the dictionaries as
+   preprocessing fills them, the lexicographic definition *)
+Theorem C04_source_code_is_lexicographic_definition : forall n D, NoDup (map kz D) -> forall q P vq0 fq0, D <> [] -> part_strict n D = Some P ->
+  exists lay m b, P = acP (Pc D lay m) /\
+    py_LexInf_inference n (S m) (Pk D lay m) (nf_of D) (fd_of D) vq0 fq0 (bb_of D) tt q false tt = Return b /\
+    (trivial n q || b) = lex_spec (worlds n) P q.
+Proof. exact src_lex_strict_spec. Qed.
+Print Assumptions C04_source_code_is_lexicographic_definition.
+
 Example lex_tie : infer 5 SysLex false birds5 q_tie = Ans true /\ infer 5 SysW false birds5 q_tie = Ans false
   /\ map (infer 4 SysLex false birds) [q_fp; q_nfp; q_wp] = [Ans false; Ans true; Ans true].
 Proof. vm_compute. repeat split. Qed.
